@@ -19,13 +19,24 @@ def funcs : List (String × String) := [
   ("internal/msgpipeline/check_runner.go:checkRunner.runAndMergeResults", "3f1b9e96eeb78dc5"),
   ("internal/msgpipeline/check_runner.go:newCheckRunner", "ed0bad378403fdeb"),
   ("internal/msgpipeline/check_runner.go:type checkRunner", "565087d00ce2a137"),
-  ("internal/msgpipeline/msgpipeline.go:MsgPipeline.Start", "2567ac34fcd9d9e9"),
-  ("internal/msgpipeline/msgpipeline.go:msgpipelineDelivery.AddRcpt", "4a921086f6367c2d"),
+  ("internal/msgpipeline/config.go:parseChecksGroup", "cd432d0de3bc4e1b"),
+  ("internal/msgpipeline/config.go:parseEnhancedCode", "09fb8bd2bca44007"),
+  ("internal/msgpipeline/config.go:parseModifiersGroup", "9a44ebf0f487f1ca"),
+  ("internal/msgpipeline/config.go:parseMsgPipelineRcptCfg", "f75173010a223cbb"),
+  ("internal/msgpipeline/config.go:parseMsgPipelineRootCfg", "f29b27a87cfeec9a"),
+  ("internal/msgpipeline/config.go:parseMsgPipelineSrcCfg", "0e17158f5a09d249"),
+  ("internal/msgpipeline/config.go:parseRejectDirective", "8088995939f9593b"),
+  ("internal/msgpipeline/config.go:type msgpipelineCfg", "66b7381cae9aebcf"),
+  ("internal/msgpipeline/config.go:type sourceIn", "db52ad3cfe4ec85e"),
+  ("internal/msgpipeline/config.go:validMatchRule", "691ad6f172509cc5"),
+  ("internal/msgpipeline/msgpipeline.go:MsgPipeline.Start", "9b9e3864f9de0ef6"),
+  ("internal/msgpipeline/msgpipeline.go:msgpipelineDelivery.AddRcpt", "483b2d7e72200db8"),
   ("internal/msgpipeline/msgpipeline.go:msgpipelineDelivery.Body", "7dc627c0fe03620b"),
-  ("internal/msgpipeline/msgpipeline.go:msgpipelineDelivery.BodyNonAtomic", "9ef190be8c536e0f"),
+  ("internal/msgpipeline/msgpipeline.go:msgpipelineDelivery.BodyNonAtomic", "7b9e7db40807d5d7"),
   ("internal/msgpipeline/msgpipeline.go:msgpipelineDelivery.close", "11e4dc975ce697c4"),
   ("internal/msgpipeline/msgpipeline.go:msgpipelineDelivery.getRcptModifiers", "7e7c4123fc7b79b5"),
   ("internal/msgpipeline/msgpipeline.go:msgpipelineDelivery.initRunGlobalModifiers", "d90ac0fbbfed6854"),
+  ("internal/msgpipeline/msgpipeline.go:msgpipelineDelivery.srcBlockForAddr", "ac85a9939a6cdf22"),
   ("internal/target/remote/remote.go:remoteDelivery.AddRcpt", "22f624f979db1f13"),
   ("internal/target/remote/remote.go:remoteDelivery.Body", "a554d8cda54e01ca"),
   ("internal/target/remote/remote.go:remoteDelivery.BodyNonAtomic", "74a666db1a05c9ea")
